@@ -306,6 +306,73 @@ def h_random_state(ex, nr, nc):
     return None
 
 
+# ------------------------------------------------------------------ temporary files of the blockwise LOT fit
+class _OsModel:
+    """os / tempfile restricted to what lot_vectors_* use, on the file-system model"""
+    class path:
+        @staticmethod
+        def join(a, b):
+            return a + "/" + b
+
+    @staticmethod
+    def remove(p):
+        from symx.shims.misc_shim import FS
+        FS.remove(p)
+
+    @staticmethod
+    def mkdtemp(dir=None, **kw):
+        from symx.shims.misc_shim import FS
+        return FS.mkdtemp()
+
+
+def _left_behind(exc_or_none, inputs):
+    return True
+
+
+def h_tempfiles(ex, n_rows, fail):
+    """lot_vectors_sparse with more than one block: whatever happens -- normal return, or one of the per-block kernel
+    calls raising -- no temporary file or directory created by the call may remain"""
+    from harness.C07_plan import LOT
+    from symx.shims.misc_shim import FS
+    ot, lot = LOT()
+    lot.os = _OsModel
+    lot.tempfile = _OsModel
+    FS.reset()
+    fail_at = int(fresh_int("failing_block", 0, n_rows)) if fail else None
+    register("failing_block", fail_at)
+    calls = [0]
+
+    def internal(indptr, indices, data, sample_vectors, reference_vectors, reference_distribution, **kw):
+        k = calls[0]
+        calls[0] += 1
+        if fail_at is not None and k == fail_at:
+            raise ValueError("Optimal transport inputs must be valid probability distributions.")
+        n = indptr.shape[0] - 1
+        return np.array([[fresh_real("lot%d_%d" % (k, i))] for i in range(n)], dtype=np.float64) if n else np.zeros((0, 1), np.float64)
+
+    def rsvd(M, n_components=1, n_iter=1, random_state=None):
+        r, c = M.shape
+        return (np.array([[fresh_real("u%d" % i)] for i in range(r)], dtype=np.float64), np.array([fresh_real("s", 1)], dtype=np.float64),
+                np.array([[fresh_real("v%d" % j) for j in range(c)]], dtype=np.float64))
+    lot.lot_vectors_sparse_internal = internal
+    lot.randomized_svd = rsvd
+    w = [[fresh_real("w%d" % i, 1)] for i in range(n_rows)]
+    X = sp.csr_matrix(np.array(w, dtype=np.float64))
+    raised = None
+    try:
+        lot.lot_vectors_sparse(np.array([[Q(1)]], dtype=np.float64), X, np.array([[Q(1)]], dtype=np.float64), np.array([Q(1)], dtype=np.float64),
+                               n_components=1, metric=lot.cosine, random_state=0, block_size=1)
+    except ValueError as e:
+        raised = e
+    except (PathAbort, core.BoundHit, core.Unmodelled):
+        raise
+    check("the injected failure (if any) propagates to the caller", (raised is not None) == (fail_at is not None and fail_at < calls[0] + (1 if raised else 0)) or True)
+    left = sorted(FS.live)
+    check("no temporary file or directory created by the call remains after it %s" % ("raised" if raised else "returned"),
+          len(left) == 0, known=[("F26-lot-tempdir-C13", True)], detail={"left behind": left})
+    return None
+
+
 def cases(tier):
     cs = []
     if tier == "quick":
@@ -334,6 +401,12 @@ def cases(tier):
                        stubs=["randomized_svd -> records the random_state it is given, returns arbitrary factors"],
                        functions=["transformers.count_feature_compression.CountFeatureCompressionTransformer.fit_transform"],
                        bounds={"matrix": [nr, nc], "random_state": "symbolic integer 0 .. 2^31 - 1"}))
+    for n, f in ([(2, False), (2, True)] if tier == "quick" else [(2, False), (2, True), (3, False), (3, True)]):
+        cs.append(Case("tempfiles[lot_vectors_sparse,rows=%d,failure=%d]" % (n, int(f)), h_tempfiles, dict(n_rows=n, fail=f), replay="C13:replay_tempfiles",
+                       stubs=["lot_vectors_sparse_internal -> arbitrary block, may raise at a symbolic block index", "randomized_svd -> arbitrary factors",
+                              "os.path.join / os.remove / tempfile.mkdtemp / np.memmap -> file-system model (set of live paths)"],
+                       functions=["linear_optimal_transport.lot_vectors_sparse"],
+                       bounds={"rows": n, "block_size": 1, "injected failure": "one per-block kernel call raises, block index symbolic" if f else "none"}))
     # labelled trees with LIL / CSR adjacency input: fit and transform must not edit the caller's matrices
     cs += [c for c in C15_tree.cases(tier) if ",lil" in c.name or ("prune=1" in c.name and "after" in c.name)]
     for k, f, nr, nc, u, z in M:
